@@ -1,7 +1,7 @@
 (* Props/C02.v — property C02: expression text parses to the tree the precedence rules dictate.
    ONLY statements; every proof is `exact <lemma of Proofs/C02.v>`.  The model
    (Model/ExprParser.v) runs on regexes and the precedence table REGENERATED from parser.py. *)
-From BS Require Import Model.Base Model.Regex Model.NumText Model.ExprParser Gen.Unicode Gen.Tables Gen.Regexes Proofs.C02 Proofs.C13rx Proofs.C02rx Proofs.ExprFuel Proofs.TotalFuel.
+From BS Require Import Model.Base Model.Regex Model.NumText Model.ExprParser Gen.Unicode Gen.Tables Gen.Regexes Proofs.C02 Proofs.C13rx Proofs.C02rx Proofs.C02str Proofs.ExprFuel Proofs.TotalFuel.
 
 (* the regenerated BINARY_REORDER table is exactly "strictly lower documented level" *)
 Theorem C02_table_is_level_order : forall a b,
@@ -66,9 +66,11 @@ Print Assumptions C02_unique.
 (* ---- LEXING: what the regex engine (Model/Regex.v, with the fuel re_match gives it) answers on the REGENERATED token
    patterns, as direct functions of the text, for EVERY text (Proofs/RegexEval.v + Proofs/C02rx.v; the statements are about
    the generated constants, so a changed pattern in parser.py breaks them).  Every token is  ^\s*B : the white-space run is
-   fst/snd (span_p is_space_u s).  Not given a direct description: the two string literals and the bracketed variable name
-   (their bodies  \\\\|\\'|[^']  are ambiguous, the answer depends on the backtracking order; the parser model runs the
-   engine on them and the theorems above hold whatever they answer). *)
+   fst/snd (span_p is_space_u s).  All twelve token patterns have a direct description: the nine below, the two string
+   literals (C02_string_engine, C02_string_double_engine, with their un-escape pass C02_string_unescape, C02_string_unescape_double) and the bracketed
+   variable name (C02_variable_ex_engine) further down.  The bodies of the last three ( \\\\|\\'|[^'] ,  \\\]|[^\]] ) are
+   ambiguous -- a backslash is also an ordinary character -- so their answer depends on the engine's backtracking order;
+   Proofs/C02str.v works that order out. *)
 Theorem C02_binary_op_engine : forall s,
   re_match UC R_EXPR_BINARY_OP s =
   match op_len (snd (span_p is_space_u s)) with
@@ -117,6 +119,106 @@ Theorem C02_lexing_nonvacuous :
   ident_body (U "ab1 + c") = Some 3%nat /\ ident_body (U "1a") = None /\
   call_body (U "fn  (x)") = Some (2%nat, 5%nat) /\ call_body (U "f(x)") = None /\ lit_match (U " 12.5e+3x") = Some (1%nat, 8%nat).
 Proof. exact lexing_samples. Qed.
+
+(* ---- the two string literals  ^\s*'((?:\\\\|\\'|[^'])* )'  (and the same with the double quote, code point 34).  After the
+   white space and the opening quote the engine's answer is the left-to-right scanner [scan] (Proofs/C02str.v): a bare quote
+   closes; a backslash followed by a backslash is skipped as a pair; a backslash followed by a quote is skipped as a pair
+   when the text after it still closes, and otherwise the literal closes at THAT quote (its backslash re-read as an ordinary
+   character); every other character is skipped.  [str_body q r] = length of the captured body. *)
+Theorem C02_string_engine : forall s,
+  re_match UC R_EXPR_STRING s =
+  match str_body 39 (snd (span_p is_space_u s)) with
+  | Some n => MYes (fst (span_p is_space_u s) + n + 2) [(1%nat, (fst (span_p is_space_u s) + 1, fst (span_p is_space_u s) + 1 + n))]
+  | None => MNo
+  end.
+Proof. exact string_answer. Qed.
+Print Assumptions C02_string_engine.
+Theorem C02_string_double_engine : forall s,
+  re_match UC R_EXPR_STRING_DOUBLE s =
+  match str_body 34 (snd (span_p is_space_u s)) with
+  | Some n => MYes (fst (span_p is_space_u s) + n + 2) [(1%nat, (fst (span_p is_space_u s) + 1, fst (span_p is_space_u s) + 1 + n))]
+  | None => MNo
+  end.
+Proof. exact string_double_answer. Qed.
+Print Assumptions C02_string_double_engine.
+(* in words: the literal closes at the FIRST quote that is not escaped when \\ and \q are read as pairs; if there is none, at
+   the LAST quote character of the text; it does not close exactly when there is no quote character at all; and the closing
+   position always holds a quote *)
+Theorem C02_string_close_characterisation : forall q rest pos,
+  scan q pos rest = match first_unescaped q pos rest with Some e => Some e | None => last_quote q pos rest end.
+Proof. exact scan_words. Qed.
+Print Assumptions C02_string_close_characterisation.
+Theorem C02_string_no_close : forall q rest pos, scan q pos rest = None <-> has_quote q rest = false.
+Proof. exact scan_none. Qed.
+Print Assumptions C02_string_no_close.
+Theorem C02_string_close_is_a_quote : forall q rest pos e,
+  scan q pos rest = Some e -> pos <= e /\ nth_error rest (e - pos) = Some q.
+Proof. exact scan_sound. Qed.
+Print Assumptions C02_string_close_is_a_quote.
+(* the un-escape pass the parser runs on the captured body ( re.sub of \\([\\q]) by group 1 ) is the left-to-right function:
+   a backslash followed by a backslash or by the quote emits that second character, everything else is copied *)
+Theorem C02_string_unescape : forall t, unescape R_EXPR_STRING_ESCAPE t = Some (unescape_direct 39 t).
+Proof. exact string_unescape_answer. Qed.
+Print Assumptions C02_string_unescape.
+Theorem C02_string_unescape_double : forall t, unescape R_EXPR_STRING_DOUBLE_ESCAPE t = Some (unescape_direct 34 t).
+Proof. exact string_double_unescape_answer. Qed.
+Print Assumptions C02_string_unescape_double.
+(* non-vacuity ( \00005c is the backslash): accepts, rejects, and shows the re-read backslash:  'a\'  closes at the escaped
+   quote with body  a\ ;  'a\'b'  skips the escaped quote;  'a\\'b'  closes at the first quote; the engine agrees *)
+Example C02_ex_string_engine :
+  str_body 39 (U "'a\00005c'") = Some 2%nat /\
+  str_body 39 (U "'a\00005c'b'") = Some 4%nat /\
+  str_body 39 (U "'a\00005c\00005c'b'") = Some 3%nat /\
+  str_body 39 (U "'\00005c\00005c\00005c'") = Some 3%nat /\
+  str_body 39 (U "'a\00005c'b") = Some 2%nat /\
+  str_body 39 (U "''") = Some 0%nat /\
+  str_body 39 (U "'a") = None /\ str_body 39 (U "a'") = None /\ str_body 34 (U "'a'") = None /\
+  re_match UC R_EXPR_STRING (U " 'a\00005c' ") = MYes 5 [(1%nat, (2%nat, 4%nat))] /\
+  re_match UC R_EXPR_STRING (U "'a\00005c'b'") = MYes 6 [(1%nat, (1%nat, 5%nat))] /\
+  re_match UC R_EXPR_STRING (U "'a\00005c\00005c'b'") = MYes 5 [(1%nat, (1%nat, 4%nat))] /\
+  re_match UC R_EXPR_STRING (U "'a") = MNo /\
+  re_match UC R_EXPR_STRING_DOUBLE (U " \000022a\00005c\000022") = MYes 5 [(1%nat, (2%nat, 4%nat))] /\
+  unescape_direct 39 (U "a\00005c'b\00005c\00005cc\00005cd\00005c") = U "a'b\00005cc\00005cd\00005c" /\
+  unescape R_EXPR_STRING_ESCAPE (U "a\00005c'b\00005c\00005cc\00005cd\00005c") = Some (U "a'b\00005cc\00005cd\00005c").
+Proof. vm_compute. repeat split; reflexivity. Qed.
+
+(* ---- the bracketed variable name  ^\s*\[\s*((?:\\\]|[^\]])+)\s*\] .  After the leading white space (p characters) and the
+   bracket: skip the white-space run; if something other than ] follows, the name starts there and runs to the closing
+   bracket found by the scanner [scanv] (a bare ] closes; backslash + ] is skipped as a pair when the text after it still
+   closes, otherwise the name closes at THAT bracket; every other character, white space included, is skipped -- so the
+   name keeps its trailing white space and the final \s* never reads anything); if the white-space run is followed
+   directly by ], the name is the LAST character of the run ( "[ ]" has the name " " ) and an empty run gives no match.
+   [varex_tok p r] = (start of the name, position of the closing bracket), as positions in the text. *)
+Theorem C02_variable_ex_engine : forall s,
+  re_match UC R_EXPR_VARIABLE_EX s =
+  match varex_tok (fst (span_p is_space_u s)) (snd (span_p is_space_u s)) with
+  | Some (a, e) => MYes (S e) [(1%nat, (a, e))]
+  | None => MNo
+  end.
+Proof. exact variable_ex_answer. Qed.
+Print Assumptions C02_variable_ex_engine.
+Theorem C02_variable_ex_no_close : forall rest pos, scanv pos rest = None <-> has_quote 93 rest = false.
+Proof. exact scanv_none. Qed.
+Print Assumptions C02_variable_ex_no_close.
+Theorem C02_variable_ex_close_is_a_bracket : forall rest pos e,
+  scanv pos rest = Some e -> pos <= e /\ nth_error rest (e - pos) = Some 93%N.
+Proof. exact scanv_sound. Qed.
+Print Assumptions C02_variable_ex_close_is_a_bracket.
+Theorem C02_variable_ex_unescape : forall t, unescape R_EXPR_VARIABLE_EX_ESCAPE t = Some (unescape_direct 93 t).
+Proof. exact variable_ex_unescape_answer. Qed.
+Print Assumptions C02_variable_ex_unescape.
+Example C02_ex_variable_ex_engine :
+  varex_tok 0 (U "[ ]") = Some (1%nat, 2%nat) /\ varex_tok 0 (U "[]") = None /\ varex_tok 0 (U "[]]") = None /\
+  varex_tok 1 (U "[ a b ]") = Some (3%nat, 7%nat) /\
+  varex_tok 0 (U "[a\00005c]") = Some (1%nat, 3%nat) /\ varex_tok 0 (U "[a\00005c]b]") = Some (1%nat, 5%nat) /\
+  varex_tok 0 (U "[   ]x]") = Some (3%nat, 4%nat) /\ varex_tok 0 (U "[ a") = None /\ varex_tok 0 (U "a]") = None /\
+  re_match UC R_EXPR_VARIABLE_EX (U " [ a b ]") = MYes 8 [(1%nat, (3%nat, 7%nat))] /\
+  re_match UC R_EXPR_VARIABLE_EX (U "[a\00005c]") = MYes 4 [(1%nat, (1%nat, 3%nat))] /\
+  re_match UC R_EXPR_VARIABLE_EX (U "[a\00005c]b]") = MYes 6 [(1%nat, (1%nat, 5%nat))] /\
+  re_match UC R_EXPR_VARIABLE_EX (U "[ ]") = MYes 3 [(1%nat, (1%nat, 2%nat))] /\
+  re_match UC R_EXPR_VARIABLE_EX (U "[]") = MNo /\
+  unescape R_EXPR_VARIABLE_EX_ESCAPE (U "a\00005c]b\00005cc") = Some (U "a]b\00005cc").
+Proof. vm_compute. repeat split; reflexivity. Qed.
 
 (* the model's recursion fuel (2*|text|+4) always suffices, and no host exception escapes: parse_expression returns a tree
    or a parser error for EVERY text (Proofs/ExprFuel.v; Proofs/Total.v) — so C02_sound covers every accepted text *)
